@@ -7,6 +7,7 @@ translator extracted from the *current* source of mouette/procedural/*.py.
 
   request : <generator> <int params…> <bool params…>
   reply   : nV ; F f1 f2 … (each face length-prefixed) ; inRange noUnused simple distinct dirNodup closed ; E border chi
+  polylines (`chain_of_vertices n loop`, `vector_field n`): nV ; E a1 b1 a2 b2 …   (edges in order)
 -/
 namespace Mouette.DriveC14
 open Mouette.Proto Mouette.MeshCheck
@@ -38,6 +39,11 @@ def handle (ts : List String) : Option String :=
   | ["hexahedron", t] => if t = "1" then some (report hexahedronNVerts hexahedronFacesTri)
                          else some (report hexahedronNVerts hexahedronFacesQuad)
   | ["quad", t] => if t = "1" then some (report quadNVerts quadFacesTri) else some (report quadNVerts quadFacesQuad)
+  | "chain_of_vertices" :: r => (runP (do let a ← nat; let l ← bool; pure (a, l)) r).map
+      fun (a, l) => s!"{a} ; {fmtList (fun (e : Nat × Nat) => s!"{e.1} {e.2}") (chainEdges a l)}"
+  | "vector_field" :: r => (runP (do let a ← nat; pure a) r).map
+      fun a => s!"{vectorFieldVertsPer * a} ; {fmtList (fun (e : List Nat) => " ".intercalate (e.map toString)) (vectorFieldEdges a)}"
+  | ["dual_counts", a, b] => some s!"{dualNVerts a.toNat! b.toNat!} {dualNFaces a.toNat! b.toNat!}"
   | ["binding"] => some (" ".intercalate (hexa4ptsBinding.map fun (a, b) => s!"{a}->{b}"))
   | _ => none
 
